@@ -364,11 +364,15 @@ class ResponseHandler(BaseProtocol, DataQueue[tuple[RawResponseMessage, StreamRe
         self._upgraded = upgraded
 
         payload: StreamReader | None = None
+        interim = False
         for message, payload in messages:
             if message.should_close:
                 self._should_close = True
 
             self._payload = payload
+            # 100 Continue, 102 Processing, 103 Early Hints, ...: the final
+            # response is still to come, so the read timeout keeps running.
+            interim = 100 <= message.code < 200 and message.code != 101
 
             if self._skip_payload or message.code in EMPTY_BODY_STATUS_CODES:
                 self.feed_data((message, EMPTY_PAYLOAD))
@@ -382,7 +386,7 @@ class ResponseHandler(BaseProtocol, DataQueue[tuple[RawResponseMessage, StreamRe
             # EMPTY_PAYLOAD
             if payload is not EMPTY_PAYLOAD:
                 payload.on_eof(self._drop_timeout)
-            else:
+            elif not interim:
                 self._drop_timeout()
 
         if upgraded and tail:
